@@ -1,6 +1,7 @@
 package yqlib
 
 import (
+	"bufio"
 	"io"
 	"strconv"
 	"strings"
@@ -350,4 +351,32 @@ func VerifC06JSONEncoder() {
 		verifAssert(verifEqStr(out, want), "C06/json-encoder-output-is-not-the-value "+label)
 	}
 	verifCover("C06/encoder/end")
+}
+
+// VerifC06LiteralMergeKeyText: a map key that merely spells `<<` (a string, as JSON input or a quoted YAML key gives) is
+// data: the JSON printed through the real printer (which explodes aliases and merge keys first) keeps it.
+func VerifC06LiteralMergeKeyText() {
+	s := verifStrN("s", 1, "az")
+	pos := verifChoice("position", 2)
+	k := vStr("<<")
+	var n *yaml.Node
+	var want string
+	if pos == 0 {
+		n, want = vMap(k, vStr(s), vStr("a"), vInt("2")), "{S(<<):S("+s+"),S(a):I(2)}"
+	} else {
+		n, want = vMap(vStr("a"), vInt("2"), k, vMap(vStr("b"), vStr(s))), "{S(a):I(2),S(<<):{S(b):S("+s+")}}"
+	}
+	prefs := ConfiguredJSONPreferences.Copy()
+	prefs.UnwrapScalar = false
+	prefs.ColorsEnabled = false
+	var sb strings.Builder
+	printer := NewPrinter(NewJSONEncoder(prefs), NewSinglePrinterWriter(bufio.NewWriter(c17Writer{&sb})))
+	err := printer.PrintResults(vDoc(n).AsList())
+	verifAssert(err == nil, "C06/print-error literal-merge-key-text")
+	if err != nil {
+		return
+	}
+	verifObserve("out", sb.String())
+	verifAssert(verifEqStr(sb.String(), want), "C06/json-value-differs-from-yaml-value key-spelt-like-a-merge-key")
+	verifCover("C06/literal-merge-key/end")
 }
